@@ -104,6 +104,21 @@ class C01(Prop):
                 evs.insert(rng.randint(1, len(evs)), ["emit", "0", rng.choice([["n", "9"], "c", ["e", "5"]])])
             out.append(Case("time", rng.choice(["local", "threads"]), [("pipe", [pipe])], evs,
                             {"kind": "time-malformed"}))
+        # the same histories with some emissions made from ANOTHER OS thread (event `temit`, thread-safe flavour, users'
+        # closure subscription): behaviour must not depend on which thread delivers a notification (seed C01-8 keyed the
+        # grammar on the ThreadId of the subscription)
+        rngT = random.Random(seed + 101)
+        extra = []
+        for c in out:
+            if c.suite == "pipe" and c.flavor == "threads" and len(extra) < (1500 if tier == "quick" else 15000) \
+                    and any(e[0] == "emit" for e in c.events):
+                d = c.copy()
+                d.events = [(["temit"] + list(e[1:])) if (e[0] == "emit" and rngT.random() < 0.6) else list(e) for e in d.events]
+                if not any(f == "closure" for f, _ in d.fields) and rngT.random() < 0.6:
+                    d.fields = [("closure", ["1"])] + list(d.fields)
+                d.meta = dict(c.meta, kind="other-thread")
+                extra.append(d)
+        out += extra
         out = tg.with_units(seed, out)
         # merge_all / group_by / share (theorems C01M_* over their own models): a sample of the populations of
         # C05, C20 and C11, full lines compared, grammar oracle per delivered stream
